@@ -28,9 +28,10 @@ def main(tier):
     chk.run("R-NOPRECEDENCE", B.noprecedence, r, floor=3)
     chk.run("R-ABBREV", B.abbrev, r, floor=5)
     chk.run("R-DUPNAME", B.dupname, r, floor=2)
-    chk.run("R-PATHEND", RR.pathend, r, floor=5)
+    chk.run("R-PATHEND", RR.pathend, r, floor=2, modules=("compiler/front_end/symbol_resolver.py",))
     chk.run("R-VISIBLE", RR.visible, r, floor=1)
     chk.run("R-SCOPEVIS", RR.scopevis, r, s, cx.sites, floor=6)
     chk.run("R-SKIPLOSS", T.skiploss, r, s, cx.sites, modules=("symbol_resolver.py",), floor=1)
     chk.run("R-TRAVPARAM", T.travparam, r, s, sr_sites, floor=30, control=lambda: T.control_travparam(r))
+    chk.run("R-SCOPECHAIN", RR.scopechain, r, floor=2)
     return chk.finish()
